@@ -58,11 +58,14 @@ _P = {
     'cdf, get_epochs); kernel-checked counterexample for the pre-fix gather. Real vector calls compared with single-time calls for 5 entry points, all '
     'container types; model argsort vs numpy.', ''),
  'C08': entry('Lean 4 proof (relabelling invariance of moments/cdf) + metamorphic correspondence incl. PYTHONHASHSEED sweep',
-    'Theorems perm_accum / perm_cdf / E_reindex; real code under renaming, permuted listing order in every container, omitted unsampled demes; '
-    'subprocess sweep over hash seeds.', 'Equivariance of the code model under deme permutation and hash-seed independence are exercised, not proved (partial). '),
+    'Theorems C08_moments_perm / C08_cdf_perm (state level, on the BFS graphs the code builds) and the input-glue model: config_named_semantics, '
+    'config_listing_order_irrelevant, config_rename_equivariant, config_hash_independent (any iteration order of the set of unsampled names), composed in '
+    'config_moments_listing_order_irrelevant; real code under renaming, permuted listing order in every container, omitted unsampled demes; glue tables read back '
+    'from the real rate matrix and diffed against the model; subprocess sweep over hash seeds.', 'Hash-seed independence of the real interpreter is exercised (the model quantifies over all set orders); permuting the inner {time: value} dicts is not covered by the glue theorem (partial). '),
  'C10': entry('Lean 4 proof (merge of redundant boundaries, grid refinement, monotonicity, horizon-search spec) + metamorphic oracle on the real code',
     'Theorems from the exponential laws; real code: redundant change points, coarse vs fine grids, three end-time routes, additivity, monotone raw curves, '
-    'default horizon equals the infinite-horizon value or a warning is logged.', PT),
+    'default horizon equals the infinite-horizon value or a warning is logged. Call layer (None/0/positive start and end times, window = difference, routes agree) '
+    'modelled in PGModel/Api.lean, theorems api_window_additive / api_routes_agree / api_explicit_zero_*, real moment()/accumulate() diffed against it.', PT),
  'C11': entry('Lean 4 proof (reward identities on every block-counting state, linearity of means, both spaces lump one labelled process) + relational oracle',
     'Theorems sum_sfs_eq_tbl, weighted_sfs_eq_n_height, folded_eq_fold, accumVal_one_linear; real sums/folds/spaces compared at 1e-9 of the raw scale; '
     'reward vectors diffed exactly against the model.', 'Second-order identities rely on multilinearity proved for k=1 (partial). '),
@@ -74,7 +77,7 @@ _P = {
     'rate consistency on the real functions.', PT),
  'C15': entry('Lean 4 proof (centring = central moment for all k, symmetry under all permutations, slot additivity) + route/relational oracle',
     'Theorems accumulate_center_eq(_central_moment), accumulate_perm, uncentred_add; real code: binomial combinations, symmetry, linearity, all documented '
-    'routes pairwise, memo-key separation, PSD/unit diagonal; model values for small cases.', 'PSD measured (partial). '),
+    'routes pairwise, memo-key separation, PSD/unit diagonal; model values for small cases; call layer of moment/accumulate (accumulateCall_eq) diffed against the real methods.', 'PSD measured (partial). '),
  'C17': entry('Lean 4 proof (cache state machine refinement: every read returns the matrix of the current epoch) + history-based correspondence',
     'Theorem C17_refinement on the model of StateSpace caching; real code: random query histories vs fresh objects, cache off, shared state spaces '
     'through Inference.get_coal, parallel vs sequential.', 'Process-pool scheduling is runtime (partial). '),
@@ -82,11 +85,11 @@ _P = {
     'Theorems: round trip preserves statistics because statistics depend on the configuration only (C17 refinement), original untouched, idempotent; '
     'real round trips via string and file for Coalescent, SFS2, Inference.', 'jsonpickle/dill correctness is the parameter law (partial by construction). '),
  'C19': entry('Lean 4 proof (best-run selection, merge order independence, bootstrap rows, create_run start values) + invariant oracle on real runs',
-    'Theorems C19_best, C19_merge, C19_bootstrap_rows, C19_create_run with the optimiser as a parameter; real tiny inference problems: invariants, '
-    'reproducibility, cache on/off, merge histories.', 'L-BFGS-B behaviour is a parameter (partial). '),
+    'Theorems C19_best, C19_merge, C19_bootstrap_rows, C19_create_run, and at dict level C19_labels_within_bounds / C19_labels_order_irrelevant (x0 listed in any key order) '
+    'with the optimiser as a parameter; real tiny inference problems: invariants, reproducibility, cache on/off, merge histories; _run/_optimize labelling diffed against the model.', 'L-BFGS-B behaviour is a parameter (partial). '),
  'C20': entry('Lean 4 proof (validate is complete and sound for the invalid classes) + malformed-input correspondence',
-    'Theorems C20_complete / C20_sound on the model of the constructor checks; real code fed every invalid class by every route and valid neighbours; '
-    'stiff sweep for silent NaN.', 'NaN clause is runtime exploration (partial). '),
+    'Theorems C20_complete / C20_sound on the model of the constructor checks, api_length_mismatch_rejected / api_negative_order_rejected on the model of the call layer; '
+    'real code fed every invalid class by every route and valid neighbours; stiff sweep for silent NaN.', 'NaN clause is runtime exploration (partial). '),
 }
 _V = os.path.dirname(os.path.dirname(os.path.abspath(__file__)))
 _reg = {}
